@@ -584,6 +584,16 @@ pub fn sites() -> Vec<Site> {
         };
         main_only(format!("#d8 0b1010010 @ 0xa5[{}:{}]\n", m.e(), m.e()), exact(&[0xa4 | bit]))
     }));
+    // the same bounds in an unsized `#d`, where the width of the element is estimated before it is evaluated
+    v.push(site("unsized-data-slice-hi", Value, "#d 0xa5[N:0]", |m| main_only(format!("#d 0xa5[{}:0]\n", m.e()), Expect::None)));
+    v.push(site("unsized-data-slice-hi-lo", Value, "#d 0xa5[N:N] @ 0b1010010", |m| {
+        let bit = match z_to_u64(m.z()) {
+            Some(k) if k < 8 => (0xa5u8 >> k) & 1,
+            _ => 0,
+        };
+        main_only(format!("#d 0xa5[{}:{}] @ 0b1010010\n", m.e(), m.e()), exact(&[(bit << 7) | 0x52]))
+    }));
+    v.push(site("unsized-data-concat-of-slices", Value, "#d 0xa5[N:0] @ 0xa5[N:0]", |m| main_only(format!("#d 0xa5[{}:0] @ 0xa5[{}:0]\n", m.e(), m.e()), Expect::None)));
     v.push(site("backtick-width", Value, "#d8 (0xa5`N)[7:0]", |m| {
         main_only(format!("#d8 (0xa5`{})[7:0]\n", m.e()), if *m.z() >= Z::from(8) { exact(&[0xa5]) } else { Expect::None })
     }));
